@@ -12,7 +12,7 @@ from typing import Any, Dict, List, Tuple
 
 from .. import core
 from ..core import Check, canon, exc_family, loc_to_parts, show, tag, untag, untext
-from ..pathcommon import DocTable, lockey, run_universes, sel_features, walk
+from ..pathcommon import DocTable, _drive, lockey, run_universes, sel_features, walk
 
 _table: Any = None
 NEW = "NEW"
@@ -38,59 +38,85 @@ def replay(rec: Dict[str, Any]) -> List[Tuple[str, Dict[str, Any], str]]:
         exp_locs = rec["res"][d]
         if len(ms) != len(exp_locs):
             continue  # C01's business
-        seen = set()
-        for m, eloc in zip(ms, exp_locs):
-            # the location the specification gives this match (not the one the match claims)
-            key = lockey(eloc)
-            if key in seen:
-                continue
-            seen.add(key)
-            node = tbl.by_loc[d].get(key)
-            if node is None:
-                continue
-            disc = ""
-            for how in ("pointer-object", "pointer-text"):
-                try:
-                    ptr: Any = m.pointer() if how == "pointer-object" else str(m.pointer())
-                except BaseException as e:  # noqa: BLE001
-                    disc = f"{how}:pointer()-raised-{exc_family(e)}"
-                    break
-                if how == "pointer-text" and "\\" in ptr:
+        sources = [("", ms)]
+        try:
+            ams = _drive(_collect(path, tbl.fresh(d)))
+            if len(ams) == len(ms):
+                sources.append(("async-match:", ams))
+        except BaseException:  # noqa: BLE001
+            pass  # C08's business
+        for sname, matches in sources:
+            seen = set()
+            for m, eloc in zip(matches, exp_locs):
+                # the location the specification gives this match (not the one the match claims)
+                key = lockey(eloc)
+                if key in seen:
                     continue
-                try:
-                    same = JSONPatch().test(ptr, m.obj).apply(tbl.fresh(d))
-                    if canon(tag(same)) != canon(tbl.docs[d]["doc"]):
-                        disc = "test-changed-the-document"
-                except BaseException as e:  # noqa: BLE001
-                    disc = f"test-raised-{exc_family(e)}"
-                if not disc:
-                    try:
-                        r = JSONPatch().replace(ptr, NEW).apply(tbl.fresh(d))
-                        if canon(tag(r)) != canon(node["replaced"]):
-                            disc = "replace-edited-something-else"
-                    except BaseException as e:  # noqa: BLE001
-                        disc = f"replace-raised-{exc_family(e)}"
-                if not disc and m.parts:
-                    try:
-                        r = JSONPatch().remove(ptr).apply(tbl.fresh(d))
-                        if canon(tag(r)) != canon(node["removed"]):
-                            disc = "remove-removed-something-else"
-                    except BaseException as e:  # noqa: BLE001
-                        disc = f"remove-raised-{exc_family(e)}"
+                seen.add(key)
+                node = tbl.by_loc[d].get(key)
+                if node is None:
+                    continue
+                disc = _edits(m, node, tbl, d, quick=bool(sname))
                 if disc:
-                    disc = f"{how}:{disc}"
-                    break
-            if disc and disc.count(":") == 0:
-                disc = "pointer:" + disc
-            if disc:
-                last = m.parts[-1] if m.parts else ""
-                kind = "root" if not m.parts else ("index" if isinstance(last, int) else ("intlike-name" if str(last).lstrip("+-").isdigit() else "name"))
-                if any(isinstance(p, str) and p.lstrip("-").isdigit() and abs(int(p)) > 2**53 - 1 for p in m.parts):
-                    kind = "member-name-is-an-integer-beyond-the-index-limit"
-                out.append((f"{disc}|last:{kind}", {"query": text, "doc": show(tbl.docs[d]["doc"]), "match_parts": list(m.parts),
-                                                    "tagged": rec}, disc))
-                return out
+                    disc = sname + disc
+                    last = m.parts[-1] if m.parts else ""
+                    kind = "root" if not m.parts else ("index" if isinstance(last, int) else ("intlike-name" if str(last).lstrip("+-").isdigit() else "name"))
+                    if any(isinstance(p, str) and p.lstrip("-").isdigit() and abs(int(p)) > 2**53 - 1 for p in m.parts):
+                        kind = "member-name-is-an-integer-beyond-the-index-limit"
+                    out.append((f"{disc}|last:{kind}", {"query": text, "doc": show(tbl.docs[d]["doc"]), "match_parts": list(m.parts),
+                                                        "tagged": rec}, disc))
+                    return out
     return out
+
+
+async def _collect(path: Any, doc: Any) -> List[Any]:
+    return [m async for m in await path.finditer_async(doc)]
+
+
+def _edits(m: Any, node: Dict[str, Any], tbl: DocTable, d: int, quick: bool = False) -> str:
+    """Apply test / replace / remove at the match's pointer, built through the builder API and (for
+    pointer text) given as operation objects and as JSON text; '' when all agree with the specification."""
+    from jsonpath import JSONPatch
+
+    orig = canon(tbl.docs[d]["doc"])
+    for how in ("pointer-object", "pointer-text"):
+        try:
+            ptr: Any = m.pointer() if how == "pointer-object" else str(m.pointer())
+        except BaseException as e:  # noqa: BLE001
+            return f"{how}:pointer()-raised-{exc_family(e)}"
+        if how == "pointer-text" and "\\" in ptr:
+            continue
+        makers = [("", lambda ops: _build(JSONPatch(), ops))]
+        if how == "pointer-text" and not quick:
+            makers += [("op-objects:", lambda ops: JSONPatch([dict(o) for o in ops])), ("json-text:", lambda ops: JSONPatch(json.dumps(ops)))]
+        elif quick and how == "pointer-text":
+            continue
+        for mname, make in makers:
+            steps = [("test", [{"op": "test", "path": ptr, "value": m.obj}], orig, "test-changed-the-document"),
+                     ("replace", [{"op": "replace", "path": ptr, "value": NEW}], canon(node["replaced"]), "replace-edited-something-else"),
+                     ("replace-null", [{"op": "test", "path": ptr, "value": m.obj}, {"op": "replace", "path": ptr, "value": None},
+                                       {"op": "test", "path": ptr, "value": None}], canon(node["nulled"]), "replace-edited-something-else")]
+            if m.parts:
+                steps.append(("remove", [{"op": "remove", "path": ptr}], canon(node["removed"]), "remove-removed-something-else"))
+            for sname, ops, want, wrong in steps:
+                try:
+                    r = make(ops).apply(tbl.fresh(d))
+                    if canon(tag(r)) != want:
+                        return f"{how}:{mname}{wrong}"
+                except BaseException as e:  # noqa: BLE001
+                    return f"{how}:{mname}{sname}-raised-{exc_family(e)}"
+    return ""
+
+
+def _build(patch: Any, ops: List[Dict[str, Any]]) -> Any:
+    for o in ops:
+        if o["op"] == "test":
+            patch.test(o["path"], o["value"])
+        elif o["op"] == "replace":
+            patch.replace(o["path"], o["value"])
+        else:
+            patch.remove(o["path"])
+    return patch
 
 
 def run(chk: Check, tier: str, seed: int) -> None:
@@ -100,7 +126,7 @@ def run(chk: Check, tier: str, seed: int) -> None:
     _table = DocTable(docs)
     for rec, res in zip(recs, core.pmap(replay, recs)):
         n = sum(len(r) for r in rec["res"])
-        chk.traces += 3 * n
+        chk.traces += 15 * n  # lower bound: 4 + 3x4 + 4 applications per non-root match
         if n:
             chk.nontrivial.add(json.dumps(rec["q"], sort_keys=True))
         for sig, case, what in res:
@@ -110,8 +136,9 @@ def run(chk: Check, tier: str, seed: int) -> None:
         chk.sample({"doc": show(d["doc"]), "at": list(loc_to_parts(n["loc"])), "pointer": untext(n["ptr"]), "replace_gives": show(n["replaced"]), "remove_gives": show(n["removed"])})
     chk.exhaustive = True
     chk.rule = ("every match of the query universes over the 24 documents (member names digits-only, signed look-alikes, '~', '/', empty, non-ASCII, quotes, "
-                "backslashes) x {test, replace, remove} through the pointer object and its text; traces = patch applications compared with "
-                "SetAtLoc / RemoveAtLoc of the specification; non-trivial = query has matches")
+                "backslashes) x {test, replace, test+replace-with-null+test, remove} through the pointer object and its text, the "
+                "text also given as operation objects and as JSON patch text; matches taken from the sync and the async API; traces = patch applications "
+                "compared with SetAtLoc / RemoveAtLoc of the specification; non-trivial = query has matches")
 
 
 def replay_file(case: Dict[str, Any]) -> int:
